@@ -104,6 +104,28 @@ func c08Gen(rng *verifsim.RNG, idx int, tier string) *Plan {
 			p.Actions = append(p.Actions, Action{At: stop + int64(rng.Dur(time.Millisecond, 1500*time.Millisecond)), Kind: "release", Hold: "hn"})
 		}
 	}
+	if stop > 3*nsSec && rng.Bool(0.12) {
+		// the stop arrives while the interface is being re-dialled after a link
+		// event, and the (slow) dial attempt then succeeds: hosts still hold the
+		// default route they learnt from the previous connection
+		p.Class += "+stop-during-redial"
+		d := int64(rng.Dur(50*time.Millisecond, 900*time.Millisecond))
+		p.Actions = append(p.Actions, Action{At: stop - d, Kind: "link", If: "eth0", Oper: "down"})
+		p.Faults = append(p.Faults, Fault{Seam: "dial", If: "eth0", From: stop - d, Count: 1, Lat: d + int64(rng.Dur(time.Millisecond, 700*time.Millisecond))})
+	}
+	if rng.Bool(0.15) {
+		// a solicitation that is out of the socket queue before the stop but whose
+		// receive only returns after it: the listener hands it over to a
+		// scheduler that may already be gone
+		p.Class += "+rs-across-stop"
+		d := int64(rng.Dur(time.Millisecond, 400*time.Millisecond))
+		at := stop - d
+		if at < 2000 {
+			at = 2000
+		}
+		p.Faults = append(p.Faults, Fault{Seam: "read.post", From: at - 1000, Count: 1, Lat: d + int64(rng.Dur(time.Millisecond, 600*time.Millisecond))})
+		p.Actions = append(p.Actions, rsAction(at, []string{hostAddr(2), "::"}[rng.Intn(2)]))
+	}
 	p.Actions = append(p.Actions, Action{At: stop, Kind: "signal", Sig: sig})
 	if rng.Bool(0.1) {
 		// a second signal while shutting down
@@ -220,6 +242,42 @@ func c08Iface(info *runInfo, res *verifsim.Result, h *history, ifn string, unica
 		if e.K == "task.exit" && taskIface(e.S) == ifn {
 			exit = e
 			break
+		}
+	}
+	// A connection that only came up after the stop (the stop arrived while the
+	// interface was being re-dialled, and the attempt then succeeded): hosts may
+	// still hold the default route learnt from the previous connection, and the
+	// terminating daemon has a socket to say goodbye on.
+	if term && !unicastOnly {
+		for _, g := range h.gens {
+			if g.ifn != ifn || g.dialSeq < stopSeq || g.gen < 2 {
+				continue
+			}
+			failed := false
+			for i := range h.ev {
+				e := &h.ev[i]
+				if e.Seq > stopSeq && e.If == ifn && e.Err != "" && e.Err != "deadline" && (e.K == "fwd.exit" || e.K == "write.exit" || e.K == "auto.set" || e.K == "auto.get.exit") {
+					failed = true
+				}
+			}
+			if failed {
+				continue
+			}
+			n := 0
+			var lastW *write
+			for _, w := range g.writes {
+				if w.marshalErr != "" || w.ra == nil {
+					continue
+				}
+				if w.mc() && w.ra.RouterLifetime == 0 {
+					n++
+				}
+				lastW = w
+			}
+			res.Probe("connection_established_after_stop")
+			if n != 1 || lastW == nil || lastW.ra.RouterLifetime != 0 {
+				res.Violate("C08.final", "after-redial", "%s: terminating (stop at %s); the connection re-established at %s sent %d zero-lifetime multicast RAs (want exactly 1, last)", ifn, ms(stopT), ms(g.t0), n)
+			}
 		}
 	}
 	if live == nil {
